@@ -156,13 +156,15 @@ func (h *hostileRT) RoundTrip(req *http.Request) (*http.Response, error) {
 // helpers under test
 
 type henv struct {
-	prep *hostPrep
-	hc   *http.Client
+	prep  *hostPrep
+	hc    *http.Client
+	vopts []rp.VerifierOption // further verifier options of the relying party (part hostile-num)
 }
 
 func (e *henv) newRP(ctx context.Context) (rp.RelyingParty, error) {
+	vo := append([]rp.VerifierOption{rp.WithNonce(func(context.Context) string { return "n-1" })}, e.vopts...)
 	return rp.NewRelyingPartyOIDC(ctx, rig.Issuer, "web", "secret-web", "https://rp.example/cb", []string{"openid"},
-		rp.WithHTTPClient(e.hc), rp.WithVerifierOpts(rp.WithNonce(func(context.Context) string { return "n-1" })))
+		rp.WithHTTPClient(e.hc), rp.WithVerifierOpts(vo...))
 }
 
 type tokenCaller struct {
